@@ -131,11 +131,19 @@ class C08Check(StatCheck):
         out.append({"k": 2, "N": 100, "sparse": True})
         out.append({"k": 20, "N": 60, "sparse": True})      # larger reservoirs: a bias confined to big k
         out.append({"k": 50, "N": 150, "sparse": True})
+        # the size handed over as a narrow NumPy integer (k >= 1 "of any integer type")
+        out.append({"k": 100, "N": 400, "sparse": True, "ktype": "uint8"})
+        out.append({"k": 100, "N": 400, "sparse": True, "ktype": "int8"})
+        out.append({"k": 300, "N": 40000, "long": True, "ktype": "int16"})
+        # very long streams (n/k >> 10^4): only the final content, binned by arrival time
+        out.append({"k": 1, "N": 40000, "long": True})
+        out.append({"k": 2, "N": 60000, "long": True})
         if tier == "thorough":
             out.append({"k": 5, "N": 100, "sparse": True})
             out.append({"k": 10, "N": 60, "sparse": True})
             out.append({"k": 100, "N": 300, "sparse": True})
             out = out * 3        # three independent seed batches per cell
+            out += [{"k": 1, "N": 200000, "long": True}] * 6 + [{"k": 3, "N": 300000, "long": True}] * 4
         return out
 
     def R(self, tier, cell):
@@ -144,9 +152,44 @@ class C08Check(StatCheck):
             base //= 4
         if cell["N"] >= 150:
             base //= 2
+        if cell.get("long"):
+            return max(200, (12000000 if tier == "quick" else 120000000) // cell["N"])
+        if cell.get("ktype"):
+            base = min(base, 4000 if tier == "quick" else 40000)
         return base
 
+    def sample_long(self, cell, R, rs):
+        """Very long streams: only the final content is inspected, binned into five equal ranges of arrival times."""
+        k, N = cell["k"], cell["N"]
+        size = getattr(np, cell["ktype"])(k) if cell.get("ktype") else k
+        seams.reseed(rs)
+        bins = [0] * 5
+        det = None
+        for _ in range(R):
+            s = UniformReservoirStorage(size=size, store_targets=False)
+            upd = s.update
+            for n in range(1, N + 1):
+                upd({"t": n})
+            tags = [r["t"] for r in s.get_data()[0]]
+            if len(tags) != k or len(set(tags)) != k:
+                det = ("reservoir-shape", "content of %d items after %d updates (k=%d)" % (len(tags), N, k))
+                break
+            for t in tags:
+                bins[min(4, (t - 1) * 5 // N)] += 1
+        fam = Family()
+        sizes = [0] * 5
+        for b in range(5):
+            # arrivals t with (t-1)*5//N == b  (exact count, also when N is not a multiple of 5)
+            lo = -(-b * N // 5)
+            hi = -(-(b + 1) * N // 5) if b < 4 else N
+            sizes[b] = hi - lo
+        for b in range(5):
+            fam.add("longstream:k=%d:n=%d:arrivals-in-fifth-%d" % (k, N, b + 1), bins[b], R * k, sizes[b] / N)
+        return fam, det, {"draw_ops": R * N, "probes": {"reservoirs": R, "long_stream_cells": 1}}
+
     def sample(self, cell, R, rs):
+        if cell.get("long"):
+            return self.sample_long(cell, R, rs)
         k, N = cell["k"], cell["N"]
         seams.reseed(rs)
         if cell.get("sparse"):
@@ -157,8 +200,9 @@ class C08Check(StatCheck):
         ret = {n: [0] * (n + 1) for n in ns}
         subs = {n: Counter() for n in ns if math.comb(n, k) <= 84}
         det = None
+        size = getattr(np, cell["ktype"])(k) if cell.get("ktype") else k
         for _ in range(R):
-            s = UniformReservoirStorage(size=k, store_targets=False)
+            s = UniformReservoirStorage(size=size, store_targets=False)
             for n in range(1, N + 1):
                 s.update({"t": n})
                 if n in nset:
@@ -186,6 +230,12 @@ class C08Check(StatCheck):
     def reductions(self, plan):
         out = []
         c = plan["cell"]
+        if c.get("long"):
+            if c["N"] // 2 >= 2000:
+                p = copy.deepcopy(plan)
+                p["cell"]["N"] = c["N"] // 2
+                out.append(p)
+            return out
         for N in sorted({c["k"] + 1, c["k"] + 2, c["k"] + 3, c["N"] // 2}):
             if c["k"] < N < c["N"]:
                 p = copy.deepcopy(plan)
